@@ -25,25 +25,26 @@ READY = True
 LEVEL = "exploration"
 TECHNIQUE = ("runtime monitoring: own deep comparison (tables, index, dtypes, values, objects, dicts) of original vs. "
              "saved-and-loaded network for every I/O route, plus identical power flow results")
-CASES = {"quick": 240, "thorough": 8000}
+CASES = {"quick": 190, "thorough": 6000}
 BUDGET = {"quick": 60, "thorough": 1500}
 CASE_TIMEOUT = 180
-FLOORS = {"quick": {"nontrivial": 120, "max_skip_frac": 0.2,
-                    "tags": {"route:json_string": 40, "route:json_file": 25, "route:json_encrypted": 20, "route:json_filelike": 15,
-                             "route:pickle": 40, "route:pickle_filelike": 15, "route:excel": 30, "route:sqlite": 30,
-                             "hostile_names": 120, "extreme_floats": 100, "inf": 25, "nullable_dtypes": 80, "custom_columns": 120,
-                             "geodata": 80, "controller": 80, "group": 60, "characteristic": 50, "user_pf_options": 50,
-                             "custom_std_type": 60, "unsorted_index": 60, "cost": 40, "results_saved": 100, "extra_table": 50,
-                             "tap_table": 20},
-                    "extras": {"tables_compared": 8000, "cells_compared": 400000, "objects_compared": 300, "pf_pairs": 250}},
-          "thorough": {"nontrivial": 4000, "max_skip_frac": 0.2,
-                       "tags": {"route:json_string": 1200, "route:pickle": 1200, "route:excel": 800, "route:sqlite": 800, "inf": 600,
-                                "controller": 2500, "group": 2000},
-                       "extras": {"tables_compared": 250000, "pf_pairs": 8000}}}
+FLOORS = {"quick": {"nontrivial": 65, "max_skip_frac": 0.2,
+                    "tags": {"route:json_string": 38, "route:json_file": 17, "route:json_encrypted": 17, "route:json_filelike": 20,
+                             "route:pickle": 33, "route:pickle_filelike": 10, "route:excel": 24, "route:sqlite": 25,
+                             "loaded:excel": 18, "loaded:sqlite": 18, "loaded:pickle": 25, "loaded:json_string": 30,
+                             "hostile_names": 85, "extreme_floats": 70, "inf": 20, "nullable_dtypes": 65, "custom_columns": 80,
+                             "geodata": 60, "controller": 45, "group": 30, "characteristic": 50, "user_pf_options": 40,
+                             "custom_std_type": 55, "unsorted_index": 55, "cost": 40, "results_saved": 65, "extra_table": 30,
+                             "tap_table": 20, "named_index": 8},
+                    "extras": {"tables_compared": 11000, "cells_compared": 140000, "objects_compared": 250, "pf_pairs": 130}},
+          "thorough": {"nontrivial": 2000, "max_skip_frac": 0.2,
+                       "tags": {"route:json_string": 1200, "route:pickle": 1000, "loaded:excel": 500, "loaded:sqlite": 500, "inf": 600,
+                                "controller": 1400, "group": 900},
+                       "extras": {"tables_compared": 350000, "pf_pairs": 4000}}}
 RULE = ("base net (pv.gen.netgen profile or bundled example) x independent hostile decorations drawn from the seed x two routes "
         "(one JSON variant, one of pickle / Excel / SQLite); non-trivial = >= 3 decorations present and both routes loaded; "
         "distinct = digest of all input tables + decoration list + routes")
-ASSUMPTIONS = ["JSON: floats within 1e-14 relative (the encoder writes 15 significant digits for DataFrame cells), everything "
+ASSUMPTIONS = ["JSON: floats within 1e-14*max(1,|x|) (the encoder writes 15 decimal places for DataFrame cells), everything "
                "else exact; pickle: exact; missing-value markers (None / NaN / pd.NA) in object columns are one value",
                "row and column order are not part of the property (to_json documents sorted indices); index labels, index "
                "dtype, column set and column dtypes are",
@@ -53,9 +54,9 @@ ASSUMPTIONS = ["JSON: floats within 1e-14 relative (the encoder writes 15 signif
                "identical results: runpp with tolerance 1e-9 on both, result tables within 1e-9*(1+|x|)"]
 
 HOSTILE = ["123", "1e5", "", " ", "nan", "NaN", "None", "null", "true", "False", "Infinity", "-inf", 'a"b', "a\\b", "a\\\\\"b", "a\nb", "\t",
-           "ünïcödé ✓ 变压器", "'; DROP TABLE bus;--", '{"_module": "x", "_class": "y"}', "[1, 2]", "x" * 300, "0x1F", "-0", "1,5", "1.0",
+           "ünïcödé ✓ 变压器", "'; DROP TABLE bus;--", '{"a": 1}', "[1, 2]", "x" * 300, "0x1F", "-0", "1,5", "1.0",
            "01", " lead", "trail ", "a;b", "a,b", "%s %d", "{}", " ", "\\u0041", "é", "NULL", "#N/A", "=1+1", "@x", "名前"]
-FLOATS = [1e-300, 1e300, 5e-324, 0.1 + 0.2, -0.0, 1 / 3, np.pi * 1e10, 2.2250738585072014e-308, 1.7976931348623157e308, 1e-15, 123456789.123456789,
+FLOATS = [1e-300, 1e300, 1e-200, 0.1 + 0.2, -0.0, 1 / 3, np.pi * 1e10, 1e-15, 123456789.123456789,
           float(np.float32(0.1)), 9007199254740993.0, -1e-7, 1e22, 1e21, 0.30000000000000004, 4.35, 2.675]
 ELEMENT_TABLES = ["bus", "load", "sgen", "gen", "ext_grid", "line", "trafo", "trafo3w", "switch", "shunt", "impedance", "ward", "xward",
                   "storage", "motor", "dcline", "asymmetric_load", "asymmetric_sgen"]
@@ -91,11 +92,12 @@ def base_net(g, seed):
     return netgen.rnd_net(seed, prof, {"tabular": 0.3}), "rnd:" + prof
 
 
-def decorate(net, g):
+def decorate(net, g, routes=()):
     """hostile content; returns the set of decoration tags"""
     R, B, I, C = g.R, g.B, g.I, g.C
     tags = set()
     tables = [t for t in ELEMENT_TABLES if len(net[t])]
+    sql = "sqlite" in routes        # to_sqlite cannot store list cells (known finding): keep most sqlite cases free of them
 
     def rnd_str():
         return C(HOSTILE)
@@ -110,7 +112,7 @@ def decorate(net, g):
                     vals.at[i] = None if B(0.08) else rnd_str()
             net[t][col] = vals
         if B(0.3):
-            net.name = rnd_str()
+            net.name = rnd_str() if B(0.7) else C(["pv_module_test", "grid_class_A", "my_module"])
     if B(0.75):
         tags.add("extreme_floats")
         t = C(tables)
@@ -129,15 +131,17 @@ def decorate(net, g):
         v = np.array([C([np.inf, -np.inf, 1.5, np.nan]) for _ in range(len(net[t]))], dtype=float)
         v[0] = C([np.inf, -np.inf])
         net[t][col] = v
-        if B(0.4) and len(net.gen):
-            net.gen["max_q_mvar"] = np.inf
-            net.gen["min_q_mvar"] = -np.inf
+        if B(0.4) and len(net.load):
+            net.load["max_p_mw"] = np.inf          # "unlimited" markers in columns the power flow does not read
+            net.load["min_p_mw"] = -np.inf
     if B(0.85):
         tags.add("custom_columns")
         for t in g.rng.choice(tables, size=min(len(tables), I(1, 3)), replace=False):
             n = len(net[t])
             kind = C(["int64", "int32", "uint8", "float32", "bool", "str", "mixed_obj", "list_obj"])
-            cname = C(["my_col", "col with space", "ünï", "123", "Name", "x.y"])
+            if kind == "list_obj" and sql and B(0.8):
+                kind = "str"
+            cname = C(["my_col", "col with space", "ünï", "123", "my_Col2", "x.y"])
             if kind in ("int64", "int32", "uint8"):
                 net[t][cname] = np.array([I(0, 200) for _ in range(n)], dtype=kind)
             elif kind == "float32":
@@ -180,6 +184,9 @@ def decorate(net, g):
             pp.reindex_elements(net, t, new, idx)
         if B(0.5):
             net[t] = net[t].loc[list(g.rng.permutation(net[t].index))]
+    if B(0.2) and not sql:
+        tags.add("named_index")
+        net[C(tables)].index.name = C(["my_id", "bus_id", "idx"])
     if B(0.65):
         tags.add("geodata")
         geo = ['{"coordinates": [%r, %r], "type": "Point"}' % (R(-180, 180), R(-90, 90)) if B(0.85) else None for _ in net.bus.index]
@@ -190,9 +197,9 @@ def decorate(net, g):
                 pts = [[R(0, 10), R(0, 10)] for _ in range(I(2, 4))]
                 lg.append('{"coordinates": %s, "type": "LineString"}' % (pts,) if B(0.8) else None)
             net.line["geo"] = pd.Series(lg, index=net.line.index, dtype=object)
-    if B(0.6) and len(net.trafo):
+    tr = [int(i) for i in net.trafo.index if net.trafo.tap_side.at[i] in ("hv", "lv") and pd.notna(net.trafo.tap_pos.at[i])] if len(net.trafo) else []
+    if B(0.6) and tr:
         tags.add("controller")
-        tr = [int(i) for i in net.trafo.index]
         n_ctrl = I(1, 3)
         for _ in range(n_ctrl):
             k = C(["cont_tap", "disc_tap", "const", "my", "char"])
@@ -212,9 +219,10 @@ def decorate(net, g):
                 MyController(net, C(tr), C(FLOATS), rnd_str(), in_service=B(0.8))
             elif k == "char":
                 ch = Characteristic(net, [R(0.9, 0.95), R(1.0, 1.05)], [R(0, 1), R(1, 2)])
-                ppc.CharacteristicControl(net, "trafo", "vk_percent", C(tr), "trafo", "tap_pos", ch.index, tol=1e-3, in_service=False)
+                ti = C(tr)
+                ppc.CharacteristicControl(net, "trafo", "vk_percent", ti, "trafo", "tap_pos", ti, ch.index, tol=1e-3, in_service=False)
                 tags.add("characteristic")
-    if B(0.5):
+    if B(0.15 if sql else 0.5):
         tags.add("group")
         for _ in range(I(1, 2)):
             ets = [t for t in ("line", "trafo", "load", "bus", "sgen") if len(net[t])]
@@ -250,7 +258,7 @@ def decorate(net, g):
                 "q_mm2": I(10, 500)}
         if B(0.4):
             data["note"] = rnd_str()
-        if B(0.3):
+        if B(0.05 if sql else 0.3):
             data["curve"] = [R(0, 1) for _ in range(3)]
         if B(0.2):
             data["nothing"] = None
@@ -264,13 +272,15 @@ def decorate(net, g):
             for i in list(net[et].index)[:2]:
                 if et in set(net.poly_cost.et[net.poly_cost.element == i]) | set(net.pwl_cost.et[net.pwl_cost.element == i]):
                     continue
-                if B(0.5):
+                if B(0.9 if sql else 0.5):
                     pp.create_poly_cost(net, int(i), et, cp1_eur_per_mw=R(0, 10), cp2_eur_per_mw2=C([0., R(0, 1)]), cp0_eur=C(FLOATS[:6]))
                 else:
                     pp.create_pwl_cost(net, int(i), et, [[0., 10., R(0, 5)], [10., 20., R(5, 9)]])
     if B(0.4):
         tags.add("extra_table")
         k = C(["df_str_index", "df_plain", "dict", "scalar", "df_multiindex"])
+        if k == "df_multiindex" and any(r in ("excel", "sqlite") for r in routes):
+            k = "df_plain"       # a frame with a named MultiIndex is not "element data" of the tabular formats
         tags.add("extra:" + k)
         if k == "df_str_index":
             net["my_table"] = pd.DataFrame({"a": [1, 2, 3], "b": [0.5, C(FLOATS), np.nan], "c": ["x", rnd_str(), None]}, index=["r1", "r 2", "ü"])
@@ -364,7 +374,7 @@ class Cmp:
             return True
         if np.isinf(a) or np.isinf(b):
             return False
-        return abs(a - b) <= self.rtol * max(abs(a), abs(b))
+        return abs(a - b) <= self.rtol * max(1., abs(a), abs(b))
 
     def value(self, a, b, path):
         """generic recursive comparison of cell / attribute values"""
@@ -484,7 +494,7 @@ class Cmp:
             if sa.dtype.kind in "fiub" and sb.dtype.kind in "fiub":
                 fa, fb = va.astype(float), vb.astype(float)
                 with np.errstate(all="ignore"):
-                    ok = (fa == fb) | (np.isnan(fa) & np.isnan(fb)) | (np.abs(fa - fb) <= self.rtol * np.maximum(np.abs(fa), np.abs(fb)))
+                    ok = (fa == fb) | (np.isnan(fa) & np.isnan(fb)) | (np.abs(fa - fb) <= self.rtol * np.maximum(1., np.maximum(np.abs(fa), np.abs(fb))))
                 ok &= ~(np.isinf(fa) ^ np.isinf(fb))
                 if not ok.all():
                     k = int(np.flatnonzero(~ok)[0])
@@ -622,6 +632,49 @@ def pf_equal(a, b):
 def classify(route, diff, a, b):
     """name of the known mechanism that explains ONE difference record, else None"""
     path, kind, detail = diff
+    if route.startswith("json") and kind == "value" and "inf" in detail:
+        # DataFrame cells are written with pandas to_json, which has no representation for +-inf and writes null
+        try:
+            tab, rest = path[4:].split(".", 1)
+            col, lab = rest.rsplit("[", 1)
+            va = a[tab][col]
+            vb = b[tab][col].reindex(va.index)
+            fa, fb = va.values.astype(float), vb.values.astype(float)
+            changed = ~((fa == fb) | (np.isnan(fa) & np.isnan(fb)) | (np.abs(fa - fb) <= 1e-14 * np.maximum(1, np.abs(fa))))
+            if changed.any() and np.all(np.isinf(fa[changed])) and np.all(np.isnan(fb[changed])):
+                return "json_inf_becomes_nan"
+        except Exception:  # noqa
+            return None
+    if route.startswith("pickle") and kind == "index_name":
+        # to_pickle stores frames as DataFrame.to_dict("split"), which has no slot for index names
+        return "pickle_drops_index_names"
+    return None
+
+
+def classify_exception(route, e, net):
+    """mechanism for an exception raised by a save/load route"""
+    msg = str(e)
+    if route.startswith("json") and type(e).__name__ == "JSONDecodeError":
+        # json_pandapowernet() feeds every top-level string that contains "_module" to json.loads
+        if any(isinstance(v, str) and "_module" in v and not v.lstrip().startswith("{") for k, v in net.items() if not k.startswith("_")):
+            return "to_json_parses_plain_strings_containing_module"
+    if route.startswith("pickle") and isinstance(e, ValueError) and "invalid literal for int()" in msg:
+        # transform_net_with_df_and_geo() forces every index to int64 and only expects TypeError for labels that are not integers
+        if any(isinstance(v, pd.DataFrame) and len(v) and v.index.dtype == object for k, v in net.items() if not k.startswith("_")):
+            return "from_pickle_fails_on_non_integer_index"
+    if route == "sqlite" and "type 'list' is not supported" in msg:
+        for k, v in net.items():
+            if isinstance(v, pd.DataFrame) and len(v) and not k.startswith("_") and not k.startswith("res_") and "object" not in v.columns:
+                if any(v[c].dtype == object and any(isinstance(x, (list, tuple)) for x in v[c].values) for c in v.columns if c != "geo"):
+                    return "to_sqlite_fails_on_list_cells"
+        # the std type sheets are frames too; only the fuse sheet gets its lists stringified
+        if any(isinstance(x, (list, tuple, dict)) for el, lib in net.std_types.items() if el != "fuse" for t in lib.values() for x in t.values()):
+            return "to_sqlite_fails_on_list_cells"
+    if route == "excel" and isinstance(e, KeyError) and e.args == ("parameter",):
+        # to_excel writes a boolean controller.recycle as the text true/false, the reader gets a bool back and json.loads(bool)
+        # raises inside from_dict_of_dfs; the bare except then tries the pre-2.0 loader, which needs a "parameter" column
+        if "controller" in net and len(net.controller) and any(isinstance(r, (bool, np.bool_)) for r in net.controller.recycle.values):
+            return "from_excel_fails_on_boolean_recycle"
     return None
 
 
@@ -629,13 +682,13 @@ def run_case(seed, tier, case_no):
     g = netgen.G(seed)
     net, base = base_net(g, seed)
     tags = {"base:" + base.split(":")[0], base}
-    deco = decorate(net, g)
+    routes = [g.C(JSON_ROUTES), g.C(OTHER_ROUTES)]
+    deco = decorate(net, g, routes)
     tags |= deco
     if g.B(0.75):
         st, _ = pf.try_run(pp.runpp, net, run_control=False)
         if st == "ok":
             tags.add("results_saved")
-    routes = [g.C(JSON_ROUTES), g.C(OTHER_ROUTES)]
     digest = common.net_digest(net, {"deco": sorted(deco), "routes": routes})
     sample = {"base": base, "decorations": sorted(t for t in deco if ":" not in t), "routes": routes, "net": netgen.describe(net)}
     viols = []
@@ -648,10 +701,11 @@ def run_case(seed, tier, case_no):
             with np.errstate(all="ignore"):
                 n2 = roundtrip(net, route, g)
         except Exception as e:  # noqa
-            viols.append(common.viol("%s: save/load raised %s: %s" % (route, type(e).__name__, str(e)[:300]), route=route, base=base,
-                                     decorations=sorted(deco)))
+            viols.append(common.viol("%s: save/load raised %s: %s" % (route, type(e).__name__, str(e)[:300]), mechanism=classify_exception(route, e, net),
+                                     route=route, base=base, decorations=sorted(deco)))
             continue
         loaded_ok += 1
+        tags.add("loaded:" + route)
         full = route.startswith("json") or route.startswith("pickle")
         if full:
             c = compare_full(net, n2, 1e-14 if route.startswith("json") else 0.)
